@@ -273,7 +273,7 @@ def _process_one(run: _Run, sbx: fsseam.Sandbox, arc: bytes, apath: str, mode: s
     return results, exc, events, fds0, tmp_at_cut
 
 
-def _check_history(run, sbx, fmt, classes, mode, k, results, exc, events, fds0, members_by_token, knob, tagcase, label):
+def _check_history(run, sbx, fmt, classes, mode, k, results, exc, events, fds0, members_by_token, knob, tagcase, label, corrupt=False):
     from sharepoint2text.parsing.exceptions import ExtractionError
     cwd = sbx.cwd
     sig_cls = "ghost" if "ghost" in classes else "tar_special" if "tar_special" in classes else \
@@ -317,9 +317,10 @@ def _check_history(run, sbx, fmt, classes, mode, k, results, exc, events, fds0, 
         else:
             run.viol.append({"class": "archive_raised_foreign_exception", "sig": f"{fmt}|{type(exc).__name__}", "case": tagcase,
                              "detail": f"{label}: {exc!r}"})
-    # skip rules
+    # skip rules (not for a positionally corrupted archive: a truncated stored ZIP is legitimately read through the directory of a
+    # member archive it contains, so "which member produced this result" is no longer defined)
     limit = knob or 10 * 1024 * 1024
-    for tok, m in members_by_token.items():
+    for tok, m in ({} if corrupt else members_by_token).items():
         if tok in blob:
             nm = m["name"]
             base = os.path.basename(nm)
@@ -383,7 +384,7 @@ def run_case(case: dict) -> dict:
             try:
                 res, exc, ev, fds0, _ = _process_one(run, sbxA, arcA, a["path"], "exhaust", 0, faults=ff)
                 base_counts = dict(ff.counts)
-                _check_history(run, sbxA, fmt, classes, "exhaust", 0, res, exc, ev, fds0, mbt, case.get("knob"), tagcase, label)
+                _check_history(run, sbxA, fmt, classes, "exhaust", 0, res, exc, ev, fds0, mbt, case.get("knob"), tagcase, label, corrupt=bool(a.get("corrupt")))
                 n = len(res)
                 dA = (_digests(res), type(exc).__name__ if exc else None)
                 run.log.ev("exhaust", ai, fmt, n, dA[1], len(ev))
@@ -400,7 +401,7 @@ def run_case(case: dict) -> dict:
                     r2, e2, ev2, f2, tmp_cut = _process_one(run, sbxA, arcA, a["path"], md, k, faults=ff)
                     if fmt == "7z" and k < n + 1 and (ff.counts["write_open"] or ff.counts["makedirs"]):
                         run.probe({"close": "closed_while_tempdir_existed", "throw": "throw_while_tempdir_existed", "drop": "dropped_while_tempdir_existed"}[md])
-                    _check_history(run, sbxA, fmt, classes, md, k, r2, e2, ev2, f2, mbt, case.get("knob"), tc, label + f" {md}@{k}")
+                    _check_history(run, sbxA, fmt, classes, md, k, r2, e2, ev2, f2, mbt, case.get("knob"), tc, label + f" {md}@{k}", corrupt=bool(a.get("corrupt")))
                     if _digests(r2) != dA[0][: len(r2)]:
                         run.viol.append({"class": "results_depend_on_consumer", "sig": f"{fmt}|{md}", "case": tc,
                                          "detail": f"{label}: first {len(r2)} results under {md}@{k} differ from the exhaustive run"})
@@ -415,7 +416,7 @@ def run_case(case: dict) -> dict:
                 resB, excB, evB, fdsB, _ = _process_one(run, sbxB, arcB, a["path"], "exhaust", 0, faults=ff)
                 tcB = dict(tagcase)
                 _check_history(run, sbxB, fmt, classes, "exhaust", 0, resB, excB, evB, fdsB, {m["token"]: m for m in specB["members"] if m.get("token")},
-                               case.get("knob"), tcB, label + " (sandbox B)")
+                               case.get("knob"), tcB, label + " (sandbox B)", corrupt=bool(a.get("corrupt")))
                 dB = (_digests(resB), type(excB).__name__ if excB else None)
                 names_same = not any("@SBX@" in m["name"] or "@SBX@" in (m.get("link") or "") for m in a["spec"]["members"])
                 if names_same and dA != dB:
@@ -437,7 +438,7 @@ def run_case(case: dict) -> dict:
                         continue
                     run.faults[kind] = run.faults.get(kind, 0) + 1
                     run.probe({"write_open": "fs_fault_write", "write": "fs_fault_write", "read_open": "fs_fault_read", "makedirs": "fs_fault_makedirs"}[kind])
-                    _check_history(run, sbxA, fmt, classes, "exhaust", 0, r3, e3, ev3, f3, mbt, case.get("knob"), tc, label + f" fsfault {kind}#{j}")
+                    _check_history(run, sbxA, fmt, classes, "exhaust", 0, r3, e3, ev3, f3, mbt, case.get("knob"), tc, label + f" fsfault {kind}#{j}", corrupt=bool(a.get("corrupt")))
                     if not set(_digests(r3)) <= set(dA[0]):
                         run.viol.append({"class": "wrong_data_after_fs_fault", "sig": f"{fmt}|{kind}", "case": tc,
                                          "detail": f"{label}: results after {kind}#{j} are not a subset of the fault-free results"})
